@@ -114,23 +114,24 @@ def rulesOf (b : Bus) : Option ConnId → Option (List PRule)
 def isHello (m : Msg) : Bool :=
   m.mtype == 1 && m.iface == some BUS_NAME && m.member == some ((/- "Hello" -/ [0x48,0x65,0x6c,0x6c,0x6f] : Bytes))
 
+def sendAllowed (b : Bus) (sender proposed : Option ConnId) (v : MsgView) (requested : Bool) : Bool :=
+  match rulesOf b sender with
+  | some rules => canSend b.limits.maxFdsDefault rules v requested (b.peerInfo proposed)
+  | none => true
+
+def recvAllowed (b : Bus) (sender addressed proposed : Option ConnId) (v : MsgView) (requested : Bool) : Bool :=
+  match rulesOf b proposed with
+  | some rules => canReceive b.limits.maxFdsDefault rules v requested (decide (addressed ≠ proposed) && v.dest.isSome) (b.peerInfo sender)
+  | none => true
+
 /-- the decision proper (no state change): `none` = allowed -/
 def policyVerdict (b : Bus) (sender addressed proposed : Option ConnId) (m : Msg) (requested : Bool) : Option Err :=
   if senderInactive b sender then
     -- an inactive connection may only say Hello to the bus driver
     if proposed.isNone && isHello m then none else some .accessDenied
-  else
-    let v := msgView m
-    let sendOK := match rulesOf b sender with
-      | some rules => canSend b.limits.maxFdsDefault rules v requested (b.peerInfo proposed)
-      | none => true
-    if !sendOK then some .accessDenied
-    else
-      let eavesdropping := decide (addressed ≠ proposed) && v.dest.isSome
-      let recvOK := match rulesOf b proposed with
-        | some rules => canReceive b.limits.maxFdsDefault rules v requested eavesdropping (b.peerInfo sender)
-        | none => true
-      if !recvOK then some .accessDenied else none
+  else if !sendAllowed b sender proposed (msgView m) requested then some .accessDenied
+  else if !recvAllowed b sender addressed proposed (msgView m) requested then some .accessDenied
+  else none
 
 /-- `bus_context_check_security_policy`, the gate every delivery passes; `sender = none` is the bus
     driver, `proposed = none` means the message is addressed to the bus driver itself. Returns the
